@@ -179,7 +179,7 @@ pub fn run(input: &str, output: &str, opts: Opts) -> std::io::Result<i32> {
             "active": st.active.iter().map(|a| rt::cid_out(a.collect_id)).filter(|c| !foreign.contains(c)).collect::<Vec<_>>(),
             "sets": st.active.iter().map(|a| a.buffered_sets).sum::<usize>(),
             "dang": st.active.iter().map(|a| a.danglings).sum::<usize>(),
-            "deadrx": st.receivers.len()}));
+            "deadrx": st.receivers.len(), "heap": crate::steer::live_heap()}));
         emit(json!({"ev":"end","run":round,"misses":0,"hung":false}));
         for l in rt::take_log() {
             out.write_all(l.as_bytes())?;
